@@ -29,7 +29,25 @@ T0 = (2020, 3, 1, 0, 0, 0, 0)
 NAN = float("nan")
 
 C01_OPS = ("create", "update", "remove", "setitem", "setitem_delete", "setitem_func", "setobs",
-           "add_af", "operate", "operate_list", "apply", "aggregate", "correlator", "expr", "expr_noeq", "rejected")
+           "add_af", "operate", "operate_list", "apply", "aggregate", "correlator", "expr", "expr_noeq", "rejected",
+           "operate_any", "aggregate_any")
+# operator objects whose values are not modelled: the output column is adopted after the call
+# and everything else (names, widths, other columns, positions, timestamps) must be unchanged
+ANY_UNARY = ("FORWARD_FINITE_DIFF", "BACKWARD_FINITE_DIFF", "CENTERED_FINITE_DIFF", "SECOND_ORDER_FINITE_DIFF",
+             "SHIFT_CIRCULAR_RIGHT", "SHIFT_CIRCULAR_LEFT", "INVERSER", "REVERSER", "DEBIASER", "NORMALIZER",
+             "SQRT", "DIODE", "SIGN", "EXP", "LOG", "COS", "SIN", "TAN")
+ANY_BINARY = ("DIVIDER", "POWER", "MODULO", "QUAD_ADDER", "DERIVATOR", "RENORMALIZER", "POINTWISE_EQUALER",
+              "CONVOLUTION", "CORRELATOR")
+ANY_SCALAR = ("SHIFT_CIRCULAR", "SHIFT_REV", "SHIFT_CIRCULAR_REV", "SCALAR_SUBSTRACTER", "SCALAR_DIVIDER",
+              "SCALAR_POWER", "SCALAR_MODULO", "SCALAR_ABOVE", "SCALAR_BELOW", "SCALAR_REV_ABOVE",
+              "SCALAR_REV_BELOW", "SCALAR_REV_DIVIDER", "SCALAR_REV_POWER", "SCALAR_REV_MODULO", "THRESHOLDER")
+ANY_AGG_U = ("VARIANCE", "STDDEV", "MSE", "RMSE", "MAD", "MEDIAN", "ARGMIN", "ARGMAX", "ZEROS")
+ANY_AGG_B = ("COVARIANCE", "CORRELATION", "L0", "L1", "L2", "LINF", "EQUAL")
+# refusals of an unmodelled operator on values outside its domain (division by zero, square root
+# of a negative number, overflow, median of a column that holds only NaN ...): C01 does not
+# promise that every operator accepts every column, so the call may fail with an ordinary
+# exception -- the table must stay aligned and nothing else may change, which is what is judged
+DOMAIN_ERRORS = (Exception,)
 C04_OPS = ("add_obs", "sort", "insert_chrono", "insert_at", "remove_list", "remove_obs", "remove_first",
            "remove_last", "extract", "span", "concat", "mod_n", "mod_pattern", "gt", "lt", "set_obs",
            "fork_reverse", "fork_span", "edit_time")
@@ -325,6 +343,25 @@ class TrackWorld(World):
 
     def _g_aggregate(self, r, m):
         return {"opr": r.choice(AGG), "in1": self._pick_input(r, m)}
+
+    def _g_operate_any(self, r, m):
+        kind = r.choice(["u", "u", "b", "b", "s"])
+        out = self._pick_name(r, m)
+        if r.random() < 0.2:
+            out = None
+        if kind == "u":
+            return {"opr": r.choice(ANY_UNARY), "in1": self._pick_input(r, m), "out": out}
+        if kind == "b":
+            return {"opr": r.choice(ANY_BINARY), "in1": self._pick_input(r, m), "in2": self._pick_input(r, m),
+                    "out": out}
+        opr = r.choice(ANY_SCALAR)
+        arg = r.choice([-2, -1, 0, 1, 2, 3, 70]) if opr.startswith("SHIFT") else r.choice([2.0, 3.0, 0.5, -1.0, 0.0, 2])
+        return {"opr": opr, "in1": self._pick_input(r, m), "arg": arg, "out": out}
+
+    def _g_aggregate_any(self, r, m):
+        if r.random() < 0.6:
+            return {"opr": r.choice(ANY_AGG_U), "in1": self._pick_input(r, m)}
+        return {"opr": r.choice(ANY_AGG_B), "in1": self._pick_input(r, m), "in2": self._pick_input(r, m)}
 
     def _g_correlator(self, r, m):
         return {"in1": self._pick_name(r, m, True), "in2": self._pick_name(r, m, True),
@@ -779,6 +816,7 @@ class TrackWorld(World):
         if name in ("x", "idx", "y"):
             return True
         return name in m["names"] and all(isinstance(v, (int, float)) and not isinstance(v, bool)
+                                          and (v != v or abs(v) < 1e15)
                                           for v in self._col(m, name))
 
     def op_operate(self, st):
@@ -905,6 +943,89 @@ class TrackWorld(World):
             self.fail("C01", "return.values", "operate(Operator.%s) on %r" % (opr, st["in1"]), exp, rv)
         self._check_all("C01", "aggregate (read-only)")
         self.observed(jsonable(float(rv)))
+
+    def _numeric(self, m, name):
+        if name in ("x", "idx", "y"):
+            return True
+        return name in m["names"] and all(isinstance(v, (int, float)) and not isinstance(v, bool)
+                                          for v in self._col(m, name))
+
+    def op_operate_any(self, st):
+        """Any other void operator object (unary, binary, scalar).  Its values are not
+        modelled: the output column is adopted from the real track after the call.  What
+        is judged is everything C01 says about the *table*: exactly the model's names plus
+        the output, one value per observation, every other column / position / timestamp
+        unchanged, no hidden scratch feature left listed -- also when the operator refuses
+        values outside its domain (division by zero, square root of a negative number)."""
+        from tracklib.core import Operator
+        t, m = self._sess(st)
+        n = len(m["obs"])
+        opr = st["opr"]
+        if n == 0 or not self._numeric(m, st["in1"]):
+            raise Skip()
+        out = st.get("out") or st["in1"]
+        if out in RESERVED:
+            raise Skip()
+        real_op = getattr(Operator, opr)
+        if opr in ANY_UNARY:
+            args = (real_op, st["in1"]) if st.get("out") is None else (real_op, st["in1"], out)
+        elif opr in ANY_BINARY:
+            if not self._numeric(m, st["in2"]):
+                raise Skip()
+            args = (real_op, st["in1"], st["in2"]) if st.get("out") is None else (real_op, st["in1"], st["in2"], out)
+        else:
+            args = (real_op, st["in1"], st["arg"]) if st.get("out") is None else (real_op, st["in1"], st["arg"], out)
+        rv, exc = self.call(t.operate, *args)
+        if exc is not None and not isinstance(exc, DOMAIN_ERRORS):
+            return self._unexpected("C01", exc, "operate(Operator.%s)" % opr)
+        listed, e2 = self.call(t.getListAnalyticalFeatures)
+        if e2 is not None:
+            return self._unexpected("C01", e2, "getListAnalyticalFeatures")
+        col = None
+        if out in listed:
+            col, e2 = self.call(t.getAnalyticalFeature, out)
+            if e2 is not None or len(col) != n:
+                self.fail("C01", "table.unreadable", "operate(Operator.%s): output %r cannot be read back as one "
+                          "value per observation" % (opr, out), n, repr(e2) if e2 is not None else len(col))
+                return "raised"
+            col = list(col)
+            self._setcol(m, out, col)
+            m["fresh"].pop(out, None)
+        elif exc is None:
+            self.fail("C01", "table.names", "operate(Operator.%s) returned normally but its output %r is not "
+                      "listed" % (opr, out), out, listed)
+            return
+        if exc is None:
+            if rv is not None and hasattr(rv, "__len__") and len(rv) == n and not leq(list(rv), col):
+                self.fail("C01", "return.values", "operate(Operator.%s) returned other values than it stored" % opr,
+                          jsonable(col), jsonable(list(rv)))
+                return
+            self.probe("unmodelled_operator_applied")
+        else:
+            self.probe("operator_refused_values_outside_its_domain")
+            self.stats["fault_fired:domain_error"] += 1
+        self._check_all("C01", "operate %s%s" % (opr, "" if exc is None else " (refused: %s)" % type(exc).__name__))
+        self.observed([opr, None if exc is None else type(exc).__name__])
+        return "ok" if exc is None else "domain"
+
+    def op_aggregate_any(self, st):
+        """Non-void operator objects (one number / one list out): read-only."""
+        from tracklib.core import Operator
+        t, m = self._sess(st)
+        if len(m["obs"]) == 0 or not self._numeric(m, st["in1"]):
+            raise Skip()
+        opr = st["opr"]
+        if opr in ANY_AGG_B:
+            if not self._numeric(m, st["in2"]):
+                raise Skip()
+            rv, exc = self.call(t.operate, getattr(Operator, opr), st["in1"], st["in2"])
+        else:
+            rv, exc = self.call(t.operate, getattr(Operator, opr), st["in1"])
+        if exc is not None and not isinstance(exc, DOMAIN_ERRORS):
+            return self._unexpected("C01", exc, "operate(Operator.%s)" % opr)
+        self._check_all("C01", "operate %s (read-only)" % opr)
+        self.observed([opr, None if exc is None else type(exc).__name__])
+        return "ok" if exc is None else "domain"
 
     def op_correlator(self, st):
         """Binary operator object whose values are not modelled (adopted after the
